@@ -56,9 +56,11 @@ CONSTANTS NSrc,       \* number of source libraries
           NLab,       \* labels are 1..NLab
           Fissile,    \* labels of fissile nuclides
           SrcList,    \* sequence of source descriptors to choose from
+          IdOf,       \* label -> cross-section id (1 = AA, 2 = NA, 3 = AC): the last two characters of the label
           MaxLevel
 
 Kinds  == {"n", "g", "p"}
+NId    == 3
 Labels == 1..NLab
 Srcs   == 1..NSrc
 LibIx  == 0..NSrc
@@ -206,6 +208,22 @@ RefusalJustified == [][err' # "" =>
            \/ Cardinality({PDoseOf(src[s]) : s \in C} \ {0}) > 1
            \/ \E l \in Labels : \E k \in Kinds : Cardinality(Holder(C, l, k)) > 1]_<<vars, err, act>>
 
+(* ---------- the known deviation (D1), stated exactly ---------- *)
+\* IsotxsLibrary.merge is not atomic: _mergeProperties has assigned the library-level properties it examines BEFORE the one
+\* that conflicts (order: neutron dose factors, neutron energies, velocity, gamma energies, gamma dose factors), and all of them
+\* when the refusal comes later (metadata, nuclides).  A refused merge must leave these five either untouched (the property)
+\* or exactly in this state (the known finding); anything else is a new violation.
+PropOrder == <<"nd", "ngs", "vel", "ggs", "gd">>
+AsBuiltProps(T, O, kind) ==
+    LET stop == IF kind # "Property" THEN Len(PropOrder) + 1
+                ELSE CHOOSE i \in 1..Len(PropOrder) :
+                        /\ PropOrder[i] # "vel" /\ Differ(T[PropOrder[i]], O[PropOrder[i]])
+                        /\ \A j \in 1..(i - 1) : PropOrder[j] = "vel" \/ ~Differ(T[PropOrder[j]], O[PropOrder[j]])
+    IN [f \in {PropOrder[i] : i \in 1..Len(PropOrder)} |->
+          LET i == CHOOSE k \in 1..Len(PropOrder) : PropOrder[k] = f IN
+          IF i < stop THEN First(T[f], O[f]) ELSE T[f]]
+AsBuiltOf(a, e) == IF e # "" /\ a.n = "MergeRefused" THEN AsBuiltProps(lib[a.t], lib[a.o], e) ELSE [none |-> 0]
+
 (* ==================================== observation ==================================== *)
 SortSet(S) == SetToSortSeq(S, <)
 \* integers and sequences of integers only (booleans as 0 / 1): the projection of a real library reports what it cannot
@@ -216,6 +234,8 @@ LibObs(L) ==
     ELSE [alive |-> TRUE, ngs |-> L.ngs, ggs |-> L.ggs, nd |-> L.nd, gd |-> L.gd, vel |-> L.vel, pdose |-> L.pdose,
           meta |-> L.meta, files |-> [k \in Kinds |-> SortSet(L.files[k])], fw |-> B(L.fw),
           labels |-> SortSet(LabelsOf(L)),
+          \* the per-id view of the library: getNuclides(id) = the labels whose LAST TWO characters are the id
+          ids |-> [x \in 1..NId |-> SortSet({l \in LabelsOf(L) : IdOf[l] = x})],
           nucs |-> [l \in Labels |-> [n |-> L.nucs[l].n, g |-> L.nucs[l].g, p |-> L.nucs[l].p, cf |-> B(L.nucs[l].cf),
                                       owner |-> B(Present(L, l))]]]
 Obs == [libs |-> [i \in 1..(NSrc + 1) |-> LibObs(lib[i - 1])]]
